@@ -125,7 +125,20 @@ def catalogue(base: str, fmt: int) -> list[list]:
     faults += [["md_drop_geff"], ["md_not_mapping"], ["md_set", "geff_version", "not-a-version"], ["md_set", "directed", "maybe"],
                ["md_del", "directed"], ["md_del", "node_props_metadata"], ["md_del", "edge_props_metadata"], ["md_del", "geff_version"],
                ["md_set", "axes", [{"name": "x"}, {"name": "x"}]], ["md_set", "axes", [{"name": "nope"}]], ["md_set", "axes", None],
-               ["md_set", "unknown_key", 1], ["md_ghost", "node"], ["md_ghost", "edge"]]
+               ["md_set", "unknown_key", 1], ["md_ghost", "node"], ["md_ghost", "edge"],
+               # one fault per clause of the metadata model's own validators (documents stay well-typed JSON)
+               ["md_set", "geff_version", "1"], ["md_set", "geff_version", "0.5.1.dev3+gabc"], ["md_set", "sphere", 7],
+               ["md_set", "display_hints", {"display_horizontal": "nope", "display_vertical": "nope2"}],
+               ["md_set", "track_node_props", {"clone": "x"}], ["md_set", "track_node_props", {"lineage": "anything"}],
+               ["md_set", "related_objects", [{"type": "image", "path": "../im", "label_prop": "seg"}]],
+               ["md_set", "related_objects", [{"type": "labels", "path": "../seg", "label_prop": "seg"}]],
+               ["md_set", "related_objects", [{"type": "labels"}]], ["md_set", "extra", {"a": {"b": [1, None]}}], ["md_set", "extra", 3]]
+    for i, ax in enumerate(md.get("axes") or []):
+        for field, value in (("min", 5.0), ("min", None), ("type", "depth"), ("type", "channel"), ("scaled_unit", "nanometer"),
+                             ("scale", 2.0), ("unit", "parsec"), ("offset", -1.5), ("name", 3)):
+            faults.append(["md_axis_set", i, field, value])
+        faults.append(["md_axis_range", i, 9.0, 1.0])
+        faults.append(["md_hints_on", ax["name"]])
     for which in ("node_props_metadata", "edge_props_metadata"):
         for nm, pm in (md.get(which) or {}).items():
             faults.append(["md_prop_del", which, nm])
@@ -134,6 +147,13 @@ def catalogue(base: str, fmt: int) -> list[list]:
                 if dt != pm["dtype"]:
                     faults.append(["md_prop_set", which, nm, "dtype", dt])
             faults.append(["md_prop_set", which, nm, "identifier", nm + "_x"])
+            faults.append(["md_prop_set", which, nm, "identifier", ""])
+            faults.append(["md_prop_set", which, nm, "unit", "furlong"])
+            faults.append(["md_prop_set", which, nm, "dtype", ""])
+            faults.append(["md_prop_set", which, nm, "dtype", pm["dtype"] if pm["dtype"] in ("str", "bool", "bytes") else "<" + {"int8": "i1", "int16": "i2", "int32": "i4", "int64": "i8", "uint8": "u1", "uint16": "u2", "uint32": "u4", "uint64": "u8", "float32": "f4", "float64": "f8"}[pm["dtype"]]])
+            others = [o for o in (md.get(which) or {}) if o != nm]
+            if others:
+                faults.append(["md_prop_swap_ids", which, nm, others[0]])
             faults.append(["md_prop_set", which, nm, "dtype", "complex64"])
             faults.append(["md_axis_on", nm])
     return faults
@@ -200,6 +220,14 @@ def apply_fault(st, fault: list) -> None:
             md[fault[1]][fault[2]][fault[3]] = fault[4]
         elif kind == "md_axis_on":
             md["axes"] = [{"name": fault[1]}]
+        elif kind == "md_axis_set":
+            md["axes"][fault[1]][fault[2]] = fault[3]
+        elif kind == "md_axis_range":
+            md["axes"][fault[1]]["min"], md["axes"][fault[1]]["max"] = fault[2], fault[3]
+        elif kind == "md_hints_on":
+            md["display_hints"] = {"display_horizontal": fault[1], "display_vertical": fault[1]}
+        elif kind == "md_prop_swap_ids":
+            md[fault[1]][fault[2]]["identifier"], md[fault[1]][fault[3]]["identifier"] = fault[3], fault[2]
         else:
             raise ValueError(kind)
         root.attrs["geff"] = md
